@@ -261,7 +261,7 @@ class DefGen:
             return self.scale_literal(avoid_one)
         return text
 
-    def definition(self, kind=None, n_units=None, derived=None):
+    def definition(self, kind=None, n_units=None, derived=None, tie_p=0.2):
         r = self.rng
         if kind is None:
             kind = r.choice(["ref", "ref", "ref", "noref", "single"])
@@ -292,7 +292,7 @@ class DefGen:
                     "doc": r.choice([None, "Reference unit of " + name])}
         scales = []
         for i in range(n_units - 1):
-            if scales and r.random() < 0.2:
+            if scales and r.random() < tie_p:
                 lit = r.choice(scales)                  # tie (same literal text or same value other form)
                 if r.random() < 0.5:
                     v = lit_value(lit)
